@@ -177,6 +177,9 @@ def task_session(args):
 
 
 def _dispatch(t):
+    if t[0] == 'threads':
+        from .. import concurrent
+        return concurrent.task3(t[1])
     return task_session(t[1:]) if t[0] == 'session' else task(t)
 
 
@@ -194,6 +197,10 @@ def run_pool(prop, which, tier, seed, rule, assumptions):
         # the message shapes that mix families always go through the session path (receiver with RIB maintenance on)
         ncombo = sum(1 for _ in combination_cases(tier))
         tasks.append(('session', prop, which, total_cases - ncombo, total_cases, tier))
+    # the encoders run in the REST worker threads, the decoder in the reactor thread: every schedule of two threads with one
+    # preemption (thorough: two) over pairs of them (vf/threads.py, vf/concurrent.py)
+    from .. import concurrent
+    tasks += [('threads', a) for a in concurrent.tasks(prop, tier)]
     res = explore.pmap(_dispatch, tasks, chunk=1)
     explore.close_pool()
     total = 0
@@ -202,12 +209,16 @@ def run_pool(prop, which, tier, seed, rule, assumptions):
         total += n
         classes |= cl
         for k, det in out:
+            if t[0] == 'threads':
+                col.add(k, {x: det[x] for x in det if x in ('specs', 'start', 'cuts', 'label', 'bound')}, det, task=t)
+                continue
             col.add(k, {'msg': det['msg'], 'asn4': det['asn4'], 'family': det['family'], 'class_vector': det['class_vector'],
                         'case': report.pack((det['msg'], det['asn4']))}, det, task=t)
     n_new, n_known, summary = col.finish('roundtrip-case')
     sample = next(iter(pools.c06_cases(tier) if which == 'c06' else pools.c07_cases(tier)))
+    classes, interleavings = concurrent.coverage(classes)
     cov = {
-        'evaluations': total, 'distinct_nontrivial': len(classes), 'rule': rule,
+        'evaluations': total, 'distinct_nontrivial': len(classes), 'rule': rule, 'thread_interleavings': interleavings,
         'samples': [{'family': sample[0], 'class_vector': list(sample[1]), 'msg': sample[2], 'asn4': sample[3]}],
         'out_of_range_inputs': sum(1 for c in classes if len(c) > 3 and c[3] in ('out-of-range', 'out-of-range-constructed')),
         'exhaustive': True, 'violation_keys': summary,
@@ -235,6 +246,9 @@ def replay(path, prop=PROP):
     import json
     d = json.load(open(path))
     w = d['witness']
+    if '|threads|' in d['key']:
+        from .. import concurrent
+        return concurrent.cli_replay(prop, d)
 
     def fix(x):
         if isinstance(x, dict):
